@@ -24,7 +24,7 @@ TIERS = {
     "quick": dict(plans=184, budget_s=70, worlds=4, det_plans=2),
     "thorough": dict(plans=6000, budget_s=900, worlds=150, det_plans=8, always_selftest=True),
 }
-LOSSES = ["locus", "locus_decoy_sam", "locus_sliver", "gene_only", "neutral", "neutral_sparse", "empty", "depth_below", "depth_above", "stream_error", "seam_drop_locus"]
+LOSSES = ["contig_absent", "locus", "locus_decoy_sam", "locus_sliver", "gene_only", "neutral", "neutral_sparse", "empty", "depth_below", "depth_above", "stream_error", "seam_drop_locus"]
 ROUTES = ["yml", "bam", "cn", "cn_dump"]
 OUTS = ["aldy", "vcf", "simple", "none"]
 # full factorial of loss x route x output x {single, multi}; a batch walks through it
@@ -36,6 +36,10 @@ def applicable(loss, route, multi):
         # history: the lossy sample is genotyped with --debug and a user-supplied structure, then the
         # archive is genotyped; only for the losses that leave the whole locus without reads
         return loss in ("locus", "empty") and not multi
+    if loss == "contig_absent":
+        # the file's header does not list the gene's chromosome at all (a panel / trimmed header); both
+        # generated genes live on one contig, so only single-gene runs
+        return route in ("yml", "bam", "cn") and not multi
     if route == "cn" and loss in ("neutral", "neutral_sparse"):
         return False  # no neutral region is consulted with a user-supplied structure
     if route == "cn" and loss == "gene_only":
@@ -59,6 +63,9 @@ def gen_world(seed, wi):
     gb = WL.gene_opts(rng, small=True)
     ro = WL.read_opts(rng)
     world = W.gen_world(rng, 2, [ga, gb], ro, margin=max(200, ro["L"] + 60))
+    if wi % 3 == 1:
+        # the neutral locus on a chromosome of its own (as CYP2D8 is for most genes)
+        world["neutral_contig"] = {"name": "21", "offset": rng.randint(-300, 300)}
     smp = {"name": "s0", "genes": {}, "phase_seed": rng.randint(0, 999)}
     for g in world["genes"]:
         # healthy two-or-more-copy sample: the gene itself must have reads before the loss
@@ -74,6 +81,9 @@ def gen_plan(rng, tier, i, seed):
     cells = [c for c in GRID if applicable(c[0], c[1], c[3])]
     loss, route, out, multi = cells[i % len(cells)]
     w = gen_world(seed, (i // len(cells) + i) % cfg["worlds"])
+    if loss == "contig_absent":
+        # needs a world whose neutral locus is on another chromosome than the gene
+        w = gen_world(seed, 1 + 3 * ((i // len(cells)) % max(1, cfg["worlds"] // 3)))
     return {"w": w, "loss": loss, "route": route, "out": out, "multi": multi,
             "hashseed": rng.choice([0, 1, 2]),
             "k": rng.choice([0, 1, 5, 50, 200]), "which_open": rng.choice([2, 3]),
@@ -144,7 +154,7 @@ def judge(plan, outcome):
     called = bool(res_a) and any(len(x[1]) > 0 for x in res_a)
     has_del = any(al["kind"] == "deletion" for al in ga["alleles"]) and ga["pregions"] is not None
     fired = r["fired"]
-    expect_error = loss in ("locus", "locus_decoy_sam", "neutral", "neutral_sparse", "empty", "depth_below", "seam_drop_locus")
+    expect_error = loss in ("contig_absent", "locus", "locus_decoy_sam", "neutral", "neutral_sparse", "empty", "depth_below", "seam_drop_locus")
     if loss == "gene_only" and not has_del:
         # reads cover the pseudogene but the database has no whole-gene deletion allele: the statement
         # does not say what must happen (the locus is covered, a deletion cannot be called)
@@ -329,6 +339,11 @@ def _lossy_bam(seg, world, smp, loss, path):
     elif loss == "empty":
         reads = []
 
+    if loss == "contig_absent":
+        kept = [r for r in reads if r[3].startswith("n")]
+        W.write_bam(path, world, kept, build=seg["build"], omit_main=True)
+        return n_all, len(kept)
+
     def ref_end(r):
         return r[0] + sum(n for op, n in r[1] if op in (0, 2))
 
@@ -415,7 +430,7 @@ def run_segment(seg):
     effective = True
     records = None
     stream = None
-    if loss in ("locus", "locus_decoy_sam", "locus_sliver", "gene_only", "neutral", "neutral_sparse", "empty"):
+    if loss in ("contig_absent", "locus", "locus_decoy_sam", "locus_sliver", "gene_only", "neutral", "neutral_sparse", "empty"):
         sam_path = os.path.join(rd, "s0.sam" if loss == "locus_decoy_sam" else "s0.bam")
         records = _lossy_bam(seg, world, smp, loss, sam_path)
         effective = records[1] < records[0]
@@ -433,7 +448,7 @@ def run_segment(seg):
         if ga["pregions"]:
             stream["drop"] = [[min(x for _, x, y in ga["regions"]), max(y for _, x, y in ga["regions"])],
                               [min(x for _, x, y in ga["pregions"]), max(y for _, x, y in ga["pregions"])]]
-    if seg.get("min_avg_zero") and loss in ("locus", "locus_decoy_sam", "empty", "seam_drop_locus"):
+    if seg.get("min_avg_zero") and loss in ("contig_absent", "locus", "locus_decoy_sam", "empty", "seam_drop_locus"):
         params["min_avg_coverage"] = 0
     if seg.get("warm"):
         # an earlier run in the same process (an API user or `--gene all` does this): the healthy sample
